@@ -638,6 +638,18 @@ class StmtMixin:
             body_st.assume(z3.And(0 <= i, i < z3.Length(it.t)), f"loop{ordn}:iter")
             body_st.assume(self.eval_inv(body_st, spec, extra_at(Val(INT, i))))
             x = self.seq_nth(it, i) if rev_of is None else self.seq_nth(it, z3.Length(it.t) - 1 - i)
+            # universally quantified facts about the elements of the sequence (e.g. a callee's postcondition), instantiated
+            # at the current index: a sound consequence that spares the solver the instantiation
+            if rev_of is None:
+                for hyp in list(body_st.pc):
+                    if z3.is_quantifier(hyp) and hyp.is_forall() and hyp.num_vars() == 1 and hyp.var_sort(0) == z3.IntSort() \
+                            and it.t.sexpr() in hyp.body().sexpr():
+                        body_st.pc.append(z3.substitute_vars(hyp.body(), i))
+            if x.ty.kind == "int" and isinstance(n.target, ast.Name):
+                # name the current element: index arithmetic over a plain constant instead of seq.nth terms
+                xc = z3.Int(fresh_name(n.target.id))
+                body_st.assume(xc == x.t)
+                x = Val(INT, xc)
             self.assign_target(body_st, n.target, x)
             body_st.env[f"_i{ordn}"] = Val(INT, i)
             exits = []
